@@ -1,5 +1,6 @@
 import MockeryModel.Config.Sources
 import MockeryLemmas.Merge
+import MockeryLemmas.MergeT
 import MockeryModel.Generated.RunFacts
 /-!
 # C08 — Configuration resolves hierarchically; the most specific setting wins
@@ -267,5 +268,41 @@ example :
       [("I", some ⟨some [("all", .b true)], [[("dir", .s "E")], []]⟩)]⟩)
     (out.interfaces.map (fun i => i.2.configs.map (fun c => (strOf (c.get "dir"), boolOf (c.get "all"))))) =
       [[(some "E", some true), (some "P", some true)]] := by decide
+
+
+/-! ## the merge is the translated source
+
+`Generated/MergeFacts.lean` is written by `harness/verifx` (gomerge.go) from the text of `config/config.go` on every
+run: one iteration of the loop of `mergeStringMaps` as a function on the destination map, and one iteration of the
+field loop of `mergeConfigs` as the list of effects on the destination field, a function of the `reflect` tests the
+code makes.  The model functions all theorems above speak about are these translations. -/
+
+/-- **model = translation**: (1) every iteration of `mergeStringMaps` is the translated loop body (the recursive call
+is the model function, `copyMapValue` returns an equal value, `dest[k] = v` is map assignment); (2) for every field
+kind of the regenerated table and all well-typed values, `mergeField` is the interpretation of the effects of the
+translated loop body of `mergeConfigs` (guard: a pointer-typed source field is never nil, which `NewRootConfig`'s
+zero-filling of the top level guarantees) -/
+theorem merge_is_the_translated_source :
+    (∀ (k : String) (sv : TD) (rest dst : KVs),
+      mergeKVs ((k, sv) :: rest) dst =
+        mergeKVs rest (Generated.Merge.mergeStringMapsStep mergeKVs id setKeyKVs k sv dst)) ∧
+    (∀ f ∈ fieldTable, ∀ (src dst : Option Val),
+      f.2.fits src = true → f.2.fits dst = true → (f.2.isPointer = true → src.isSome = true) →
+      mergeField f.2 src dst = applyEffects (fieldEffects f.2 src dst) src dst) :=
+  ⟨mergeKVs_cons_translated, fun f hf src dst hs hd hp =>
+    mergeField_translated f.2 src dst hs hd hp (every_field_is_inherited f hf)⟩
+
+/-- the effects of the translated loop body on concrete fields: an unset `template-data` below a set one is created
+and merged; a set pointer is kept; a nil typed map (`replace-type`) takes the source map as a whole -/
+example : fieldEffects .anyMap (some (.m [("a", .leaf "1")])) none = ["init-dest-map", "merge-string-maps"] ∧
+    fieldEffects .ptrString (some (.s "x")) (some (.s "y")) = [] ∧
+    fieldEffects .ptrString (some (.s "x")) none = ["set-copy-of-src"] ∧
+    fieldEffects .typedMap (some (.r [])) none = ["set-src"] ∧
+    fieldEffects .strSlice (some (.l ["a"])) none = ["set-src"] := by decide
+
+/-- one translated iteration on a concrete nested map: `{a: {x: 1}}` into `{a: {y: 2}}` keeps `y` and adds `x` -/
+example : Generated.Merge.mergeStringMapsStep mergeKVs id setKeyKVs "a" (.node [("x", .leaf "1")])
+      [("a", .node [("y", .leaf "2")])] = [("a", .node [("y", .leaf "2"), ("x", .leaf "1")])] := by
+  simp [Generated.Merge.mergeStringMapsStep, lookup, replace, mergeKVs]
 
 end Mockery.C08
